@@ -490,7 +490,7 @@ class Unit:
 VERIFICATION_MSGS = (
     "postcondition not satisfied", "precondition not satisfied", "invariant not satisfied",
     "assertion failed", "possible arithmetic", "unreachable", "panic", "index out of bounds", "possible division",
-    "recommendation not met", "decreases not satisfied", "might not", "cannot show", "loop invariant",
+    "recommendation not met", "fails to satisfy", "decreases not satisfied", "might not", "cannot show", "loop invariant",
 )
 
 
